@@ -68,7 +68,10 @@ PROP = {'gen': [],
                'iff the stop state is reachable, carries exactly the tags of the reachable tagged states and is terminal only if no '
                'byte has a transition (C15_compile, C15_compile_total); hence DFA::matches = expression matches (C15_main, '
                'C15_main_unconditional), terminal/dead only if no extension matches (C15_terminal_dead), tags of a tagged choice = tags '
-               'of the matching alternatives (C15_tags). The model is tied to the code by a differential run: NFA graph (Debug output), '
+               'of the matching alternatives for expressions of the tagged-choice shape only (C15_tags_partial; for tags anywhere the '
+               'NFA-level law C15_tags_reachable); each production DFA of decoder.rs, as dumped on this run, is the subset construction '
+               'of the production NFA dumped before compile (C15_production_event/command/utf8: verified certificate checker, translation '
+               'validation). The model is tied to the code by a differential run: NFA graph (Debug output), '
                'DFA (canonical enumeration), acceptance/terminal/tags after every short string and guided long strings, with a '
                'verified derivative matcher as property predicate.',
  'level_note': 'Trusted: Coq kernel + vm_compute; hand-written model (BTreeMap<NFAStateId,_> as a list indexed by id: ids are dense by '
@@ -85,5 +88,10 @@ PROP = {'gen': [],
                   'hand-written model Automata/NFA.v, Build.v, Compile.v of src/automata.rs, tied to the code by the correspondence run '
                   '(NFA graph, DFA, observations)',
                   'specification Automata/Regex.v: textbook denotation of the expressions',
+                  'verif-hooks verif::dump_nfa / dump_dfa / NFA::verif_ends, harness tool c15prod (DOT parser), translate/c15prod.py and '
+                  'translate/dfa.py (Gen/ProdNFA.v, Gen/ProdDFA.v); the subset certificates are NOT trusted (checked in Coq)',
                   HARNESS],
- 'assumptions': ['symbols are bytes (below 256)']}
+ 'assumptions': ['symbols are bytes (below 256)',
+                 'production theorems: the NFA text returned by the add-only hook verif::dump_nfa is the NFA that MatcherAutomata::new / '
+                 'utf8_nfa pass to compile (the hook repeats the ten lines of MatcherAutomata::new; a divergence shows as a failed '
+                 'certificate check or a model/production DFA disagreement)']}
